@@ -41,7 +41,7 @@ static const char *const cnt_frames[RC_NFMT] = {
 };
 
 #define MAXMSG 1100
-#define MAXMSGS 4
+#define MAXMSGS 8
 
 static char kbuf[160], hx1[700], hx2[700];
 static const char *ekey(int fmt, const char *drv, const char *what)
@@ -184,12 +184,73 @@ typedef struct {
 	MPT_STRUCT(encode_array) arr;
 } arr_enc;
 
+/* start of the finished data: released bytes (state.done reduced by a transport) stay in front */
 static const uint8_t *arr_base(const arr_enc *a, size_t *used)
 {
 	const MPT_STRUCT(buffer) *b = a->arr._d._buf;
 	if (!b) { *used = 0; return 0; }
 	*used = b->_used;
 	return (const uint8_t *) (b + 1);
+}
+/*
+ * the array's encoder is a counting wrapper around the real one: what the
+ * encoder consumed during one mpt_array_push() is known exactly
+ */
+static enc_fn_t wrap_real;
+static size_t wrap_data_calls, wrap_progress_calls, wrap_consumed;
+static ssize_t enc_wrap(MPT_STRUCT(encode_state) *st, const struct iovec *to, const struct iovec *from)
+{
+	ssize_t r = wrap_real(st, to, from);
+	if (to && from) {
+		wrap_data_calls++;
+		if (r > 0) { wrap_progress_calls++; wrap_consumed += (size_t) r; }
+	}
+	return r;
+}
+static void arr_init(arr_enc *a, int fmt)
+{
+	static const MPT_STRUCT(encode_array) ainit = MPT_ENCODE_ARRAY_INIT;
+	a->fmt = fmt;
+	a->arr = ainit;
+	wrap_real = enc_fn[fmt];
+	a->arr._enc = enc_wrap;
+}
+/*
+ * hand one piece over the way a caller does that honours the returned
+ * "consumed size": advance by it until everything is taken.
+ * Returns 0, or the refusal (negative return; -2000: no progress).
+ */
+static int arr_push_all(arr_enc *a, const uint8_t *ptr, size_t l)
+{
+	const int fmt = a->fmt;
+	int rounds = 0;
+	while (l) {
+		uint8_t *src = vf_xalloc(l);
+		ssize_t rr;
+		memcpy(src, ptr, l);
+		wrap_data_calls = wrap_progress_calls = wrap_consumed = 0;
+		vf_at("mpt_array_push");
+		vf_count("mpt_array_push", 1);
+		rr = mpt_array_push(&a->arr, l, src);
+		if (vf_logging) vf_log("%s array push(len=%zu) -> %zd  (%zu encoder calls, %zu with progress, %zu bytes consumed) done=%zu scratch=%zu", rc_name[fmt], l, rr,
+		                       wrap_data_calls, wrap_progress_calls, wrap_consumed, a->arr._state.done, a->arr._state.scratch);
+		VF_CHECK(!memcmp(src, ptr, l), ekey(fmt, "array", "source-modified"), "mpt_array_push changed its input data");
+		vf_xfree(src, l);
+		if (a->arr._d._buf && a->arr._d._buf->_used == a->arr._d._buf->_size) vf_count("state:array-buffer-exactly-full", 1);
+		if (wrap_progress_calls >= 3) vf_count("state:push-with-3+-progressing-encoder-calls", 1);
+		else if (wrap_progress_calls == 2) vf_count("state:push-with-2-progressing-encoder-calls", 1);
+		if (rr < 0) return (int) rr;
+		/* the returned size is what callers advance by: it must be what the encoder took */
+		VF_CHECK((size_t) rr == wrap_consumed && (size_t) rr <= l, ekey(fmt, "array", "return-differs-from-consumed"),
+		         "mpt_array_push(len=%zu) returned %zd but its encoder calls consumed %zu bytes (%zu calls, %zu with progress); done=%zu scratch=%zu used=%zu",
+		         l, rr, wrap_consumed, wrap_data_calls, wrap_progress_calls, a->arr._state.done, a->arr._state.scratch,
+		         a->arr._d._buf ? a->arr._d._buf->_used : 0);
+		vf_count("monitor:push-return-vs-consumed", 1);
+		if (!rr) return -2000;
+		if ((size_t) rr < l) { vf_count("array:short-return", 1); if (++rounds > 64) return -2000; }
+		ptr += rr; l -= (size_t) rr;
+	}
+	return 0;
 }
 
 /* ------------------------------------------------------------- decoding */
@@ -225,6 +286,8 @@ static void decode_check(int fmt, const char *drv, const uint8_t *frames, size_t
 	for (int v = 0; v < nvariants; v++) {
 		sched_pick(&sc, fmt, r, v);
 		if (flen > 600 && sc.deliver == DD_BYTEWISE && !vf_thorough && v > 1) sc.deliver = DD_CUTS;
+		/* byte-wise delivery costs O(n^2) region copies: long multi-frame streams get PRNG cuts instead */
+		if (flen > (vf_thorough ? 3000 : 1200) && sc.deliver == DD_BYTEWISE) sc.deliver = DD_CUTS;
 		dd_run(&sc, frames, flen, r, 1, &res);
 		VF_CHECK(res.messages == nmsg && !res.errors && !res.unclaimed, ekey(fmt, drv, "decoded-message-count"),
 		         "%u frames decoded to %u messages, %u errors, %u unclaimed (last return %d); frames=%s", nmsg, res.messages, res.errors, res.unclaimed,
@@ -269,6 +332,7 @@ typedef struct {
 	size_t mlen[MAXMSGS];
 	int split[MAXMSGS];
 	int nvariants;
+	unsigned release;          /* array driver: chance (of 4) to release finished bytes after a message */
 } ccase;
 
 static void nontrivial_note(const ccase *c, size_t framebytes)
@@ -295,12 +359,7 @@ static void run_case(ccase *c, vf_rng *r)
 	for (i = 0; i < c->nmsg; i++) total += c->mlen[i];
 	vf_fp_u64(((uint64_t) fmt << 8) | (uint64_t) c->driver | ((uint64_t) c->nmsg << 16));
 	if (c->driver == 0) raw_init(&e, fmt, r, total + 300 * c->nmsg);
-	else {
-		static const MPT_STRUCT(encode_array) ainit = MPT_ENCODE_ARRAY_INIT;
-		a.fmt = fmt;
-		a.arr = ainit;
-		a.arr._enc = enc_fn[fmt];
-	}
+	else arr_init(&a, fmt);
 	for (i = 0; i < c->nmsg; i++) {
 		const uint8_t *m = c->msg[i];
 		size_t n = c->mlen[i], np, p, pos = 0, fstart, fend;
@@ -359,17 +418,8 @@ static void run_case(ccase *c, vf_rng *r)
 			const uint8_t *base;
 			fstart = a.arr._state.done;
 			for (p = 0; p < np && !refused; p++) {
-				size_t l = cut[p] - pos;
-				uint8_t *src = vf_xalloc(l);
-				ssize_t rr;
-				memcpy(src, m + pos, l);
-				vf_at("mpt_array_push");
-				vf_count("mpt_array_push", 1);
-				rr = mpt_array_push(&a.arr, l, src);
-				if (vf_logging) vf_log("%s array push(len=%zu) -> %zd  done=%zu scratch=%zu", rc_name[fmt], l, rr, a.arr._state.done, a.arr._state.scratch);
-				vf_xfree(src, l);
-				if (a.arr._d._buf && a.arr._d._buf->_used == a.arr._d._buf->_size) vf_count("state:array-buffer-exactly-full", 1);
-				if (rr < 0 || (size_t) rr != l) { refused = rr < 0 ? (int) rr : -1000 - (int) rr; break; }
+				refused = arr_push_all(&a, m + pos, cut[p] - pos);
+				if (refused) break;
 				pos = cut[p];
 			}
 			if (!refused) {
@@ -384,23 +434,32 @@ static void run_case(ccase *c, vf_rng *r)
 				VF_CHECK(refused, ekey(fmt, drv, "zero-byte-accepted"), "command text containing a zero byte was encoded: %s", vf_hex(hx1, sizeof(hx1), m, n));
 				vf_count("monitor:command-zero-refused", 1);
 				mpt_encode_array_fini(&a.arr);
-				{ static const MPT_STRUCT(encode_array) ainit = MPT_ENCODE_ARRAY_INIT; a.arr = ainit; a.arr._enc = enc_fn[fmt]; }
-				flen = 0;
+				arr_init(&a, fmt);
+				removed = 0; flen = 0;
 				c->mlen[i] = (size_t) -1;
 				continue;
 			}
-			VF_CHECK(!refused, ekey(fmt, drv, "admissible-message-refused"), "mpt_array_push returned %d (-1000-k: short count k) for message %u (%zu bytes, piece %zu of %zu) %s; done=%zu scratch=%zu",
+			VF_CHECK(!refused, ekey(fmt, drv, "admissible-message-refused"), "mpt_array_push returned %d (-2000: no progress) for message %u (%zu bytes, piece %zu of %zu) %s; done=%zu scratch=%zu",
 			         refused, i, n, p, np, vf_hex(hx1, sizeof(hx1), m, n), a.arr._state.done, a.arr._state.scratch);
 			fend = a.arr._state.done;
 			base = arr_base(&a, &used);
 			VF_CHECK(base && !a.arr._state.scratch && fend > fstart && fend <= used, ekey(fmt, drv, "state-after-terminate"),
 			         "message %u (%zu bytes): done %zu -> %zu scratch=%zu used=%zu", i, n, fstart, fend, a.arr._state.scratch, used);
+			base += used - fend;      /* finished data sits at the end of the used part */
 			frame_check(fmt, drv, base + fstart, fend - fstart, m, n);
 			memcpy(frames + flen, base + fstart, fend - fstart);
 			flen += fend - fstart;
-			VF_CHECK(fend == flen && !memcmp(base, frames, flen), ekey(fmt, drv, "finished-bytes-differ-from-frames"),
-			         "after message %u: %zu finished bytes in the array, %zu frame bytes produced; array=%s frames=%s",
-			         i, fend, flen, vf_hex(hx1, sizeof(hx1), base, fend), vf_hex(hx2, sizeof(hx2), frames, flen));
+			VF_CHECK(removed + fend == flen && !memcmp(base, frames + removed, fend), ekey(fmt, drv, "finished-bytes-differ-from-frames"),
+			         "after message %u: %zu finished bytes in the array + %zu released, %zu frame bytes produced; array=%s frames=%s",
+			         i, fend, removed, flen, vf_hex(hx1, sizeof(hx1), base, fend), vf_hex(hx2, sizeof(hx2), frames + removed, flen - removed));
+			/* transport releases k <= done finished bytes (what encode_array::shift(k) does): they stay in front of the buffer */
+			if (vf_chance(r, c->release, 4)) {
+				size_t k = vf_chance(r, 3, 4) ? fend : 1 + vf_below(r, (uint32_t) fend);
+				a.arr._state.done -= k;
+				removed += k;
+				vf_count("array:front-released", 1);
+				if (used - a.arr._state.done >= 256) vf_count("state:array-256+-released-bytes-in-front", 1);
+			}
 		}
 	}
 	/* decode the frame sequence */
@@ -433,18 +492,163 @@ static void run_case(ccase *c, vf_rng *r)
 	}
 }
 
+/* ------------------------------------------------- very long single pieces */
+#define BIGMAX 70001
+static void run_big(vf_rng *r)
+{
+	static uint8_t msg[BIGMAX + 8], frame[BIGMAX + BIGMAX / 200 + 16], dec[2 * (BIGMAX + BIGMAX / 200 + 16) + 8];
+	static const size_t lens[] = { 40000, 70001, 33000, 36000, 65536 };
+	int fmt = (int) vf_below(r, RC_NFMT);
+	size_t n = vf_chance(r, 1, 2) ? lens[vf_below(r, 5)] : 30000 + vf_below(r, BIGMAX - 30000 + 1);
+	size_t i, np, pos = 0, cut[3], used, fstart, fend, dl = 0, flen;
+	const uint8_t *base;
+	arr_enc a;
+	int refused = 0, v, pre;
+	ssize_t rr;
+
+	/* content: mostly zero free (code byte overhead is what makes the array grow repeatedly) */
+	switch (vf_below(r, 3)) {
+	case 0: for (i = 0; i < n; i++) msg[i] = (uint8_t) (i % 255 + 1); break;
+	case 1: for (i = 0; i < n; i++) msg[i] = (uint8_t) (1 + (i * 7 + 3) % 250); break;
+	default: vf_bytes(r, msg, n); for (i = 0; i < n; i++) if (!msg[i]) msg[i] = 0x11;
+	}
+	if (fmt != RC_CMD && vf_chance(r, 1, 2)) {
+		size_t nz = 1 + vf_below(r, 40);
+		while (nz--) { size_t at = vf_below(r, (uint32_t) n - 1); msg[at] = 0; if (vf_chance(r, 1, 3)) msg[at + 1] = 0; }
+	}
+	np = 1 + (vf_chance(r, 2, 3) ? 0 : vf_below(r, 3));
+	for (i = 0; i + 1 < np; i++) cut[i] = (n / np) * (i + 1) + vf_below(r, 100);
+	cut[np - 1] = n;
+	vf_fp_u64(0xB16000 + fmt); vf_fp(msg, n); vf_fp_u64(np);
+	vf_nontrivial();
+	arr_init(&a, fmt);
+	/* sometimes a few small frames first, taken and released */
+	pre = vf_chance(r, 1, 3) ? 1 + (int) vf_below(r, 5) : 0;
+	for (int k = 0; k < pre; k++) {
+		uint8_t small[120];
+		size_t sl = 40 + vf_below(r, 80);
+		for (i = 0; i < sl; i++) small[i] = (uint8_t) (1 + vf_below(r, 255));
+		refused = arr_push_all(&a, small, sl);
+		if (!refused) { vf_at("mpt_array_push"); rr = mpt_array_push(&a.arr, 0, 0); if (rr < 0) refused = (int) rr; }
+		VF_CHECK(!refused, ekey(fmt, "array", "admissible-message-refused"), "small message %d (%zu bytes) before the long one: %d", k, sl, refused);
+		a.arr._state.done = 0;   /* transport took everything */
+		vf_count("array:front-released", 1);
+	}
+	fstart = a.arr._state.done;
+	if (vf_logging) vf_log("long message: %zu bytes in %zu pieces, %s, %d released frames in front", n, np, rc_name[fmt], pre);
+	for (i = 0; i < np && !refused; i++) {
+		refused = arr_push_all(&a, msg + pos, cut[i] - pos);
+		pos = cut[i];
+	}
+	if (!refused) {
+		vf_at("mpt_array_push");
+		vf_count("mpt_array_push", 1);
+		rr = mpt_array_push(&a.arr, 0, 0);
+		if (rr < 0) refused = (int) rr;
+	}
+	VF_CHECK(!refused, ekey(fmt, "array", "admissible-message-refused"), "mpt_array_push returned %d for a %zu byte message in %zu pieces", refused, n, np);
+	fend = a.arr._state.done;
+	base = arr_base(&a, &used);
+	VF_CHECK(base && !a.arr._state.scratch && fend > fstart && fend <= used, ekey(fmt, "array", "state-after-terminate"),
+	         "%zu byte message: done %zu -> %zu scratch=%zu used=%zu", n, fstart, fend, a.arr._state.scratch, used);
+	base += used - fend;
+	flen = fend - fstart;
+	VF_CHECK(flen <= sizeof(frame), ekey(fmt, "array", "frame-shape"), "frame of %zu bytes for a %zu byte message", flen, n);
+	memcpy(frame, base + fstart, flen);
+	mpt_encode_array_fini(&a.arr);
+	VF_CHECK(rc_frame_shape_ok(frame, flen), ekey(fmt, "array", "frame-shape"), "frame of %zu bytes for a %zu byte message is not <zero-free bytes> 00 (starts %s)", flen, n, vf_hex(hx1, 200, frame, flen));
+	v = rc_decode(fmt, frame, flen - 1, dec, &dl);
+	{
+		size_t hdr = (fmt == RC_CMD) ? 2 : 0;
+		VF_CHECK(v == RC_OK && dl == n + hdr && !memcmp(dec + hdr, msg, n), ekey(fmt, "array", "reference-decode-differs"),
+		         "long message: reference decoder verdict %d, %zu bytes; message %zu bytes in %zu pieces; frame %zu bytes (starts %s)", v, dl, n, np, flen, vf_hex(hx1, 200, frame, flen));
+	}
+	vf_count("monitor:frame-shape+reference-decode", 1);
+	vf_count(cnt_frames[fmt], 1);
+	/* library decoder, plain caller of examples/core/coding.c on a linear exact-size buffer */
+	{
+		static const MPT_STRUCT(decode_state) dinit = MPT_DECODE_INIT;
+		MPT_STRUCT(decode_state) st = dinit;
+		size_t slack = (fmt == RC_CMD) ? 2 : vf_below(r, 3), bl = slack + flen, hdr = (fmt == RC_CMD) ? 2 : 0;
+		uint8_t *buf = vf_xalloc(bl);
+		struct iovec vec;
+		int ret, guard = 0;
+		memset(buf, 0xA5, slack);
+		memcpy(buf + slack, frame, flen);
+		st.curr = slack;
+		while (1) {
+			vec.iov_base = buf; vec.iov_len = bl;
+			vf_at(dd_api[fmt]);
+			vf_count(dd_api[fmt], 1);
+			ret = dd_fn[fmt](&st, &vec, 1);
+			if (ret != MPT_ERROR(MissingBuffer)) break;
+			VF_CHECK(++guard < 3000 && st.curr <= bl, ekey(fmt, "array", "decode-no-progress"), "decoder keeps asking for buffer on the long frame");
+			{
+				uint8_t *nb = vf_xalloc(bl + 64);
+				memcpy(nb, buf, st.curr);
+				memset(nb + st.curr, 0xEE, 64);
+				memcpy(nb + st.curr + 64, buf + st.curr, bl - st.curr);
+				vf_xfree(buf, bl);
+				buf = nb; bl += 64; st.curr += 64; slack += 64;
+			}
+		}
+		VF_CHECK(ret == 1 && st.data.msg >= 0 && (size_t) st.data.msg == n + hdr && st.data.pos + n + hdr <= bl
+		         && !memcmp(buf + st.data.pos + hdr, msg, n) && st.curr == slack + flen, ekey(fmt, "array", "decoded-long-message-differs"),
+		         "%s on the %zu byte frame of a %zu byte message: return %d, msg=%zd pos=%zu curr=%zu (frame ends at %zu)", dd_api[fmt], flen, n, ret,
+		         st.data.msg, st.data.pos, st.curr, slack + flen);
+		vf_xfree(buf, bl);
+		vf_count("monitor:long-message-decode-compare", 1);
+	}
+	vf_count("cases:long-single-pieces", 1);
+	vf_sample("%s via mpt_array_push (advance by returned size): one %zu byte message in %zu piece(s) after %d released small frames -> frame of %zu bytes, decoded by reference and library", rc_name[fmt], n, np, pre, flen);
+}
+
 /* -------------------------------------------------------------- case space */
 static size_t len_max(void) { return vf_thorough ? 770 : 520; }
 static unsigned len_variants(void) { return vf_thorough ? 48 : 12; }
 static uint64_t n_enum(void) { return (uint64_t) RC_NFMT * (len_max() + 1) * len_variants(); }
-static uint64_t n_rand(void) { return vf_thorough ? 2000000 : 80000; }
+static uint64_t n_rand(void) { return vf_thorough ? 2000000 : 60000; }
+static uint64_t n_hist(void) { return vf_thorough ? 400000 : 24000; }
+static uint64_t n_big(void) { return vf_thorough ? 4000 : 240; }
 
-uint64_t vf_cases(void) { return n_enum() + n_rand(); }
+uint64_t vf_cases(void) { return n_enum() + n_rand() + n_hist() + n_big(); }
+
+static void fill_message(vf_rng *r, int fmt, uint8_t *m, size_t *len, size_t lo, size_t hi)
+{
+	size_t n = 0;
+	for (int t = 0; t < 4 && n < lo; t++) n = gen_message(r, fmt, m, hi);
+	if (n < lo) {
+		n = lo + vf_below(r, (uint32_t) (hi - lo) + 1);
+		gen_pattern(r, fmt, (int) vf_below(r, 6), m, n);
+	}
+	*len = n;
+}
 
 void vf_case(uint64_t idx, vf_rng *r)
 {
 	static ccase c;
 	memset(c.mlen, 0, sizeof(c.mlen));
+	c.release = 0;
+	if (idx >= n_enum() + n_rand() + n_hist()) { run_big(r); return; }
+	if (idx >= n_enum() + n_rand()) {
+		/* producer/consumer history on one encode array: several frames taken and released
+		 * (bytes stay in front of the buffer), then a message that is large against the
+		 * space reserved up front */
+		c.fmt = (int) vf_below(r, RC_NFMT);
+		c.driver = 1;
+		c.nmsg = 3 + vf_below(r, MAXMSGS - 2);
+		c.release = 4;
+		for (unsigned i = 0; i + 1 < c.nmsg; i++) {
+			c.split[i] = vf_chance(r, 3, 4) ? 0 : (int) vf_below(r, 4);
+			fill_message(r, c.fmt, c.msg[i], &c.mlen[i], 40, 200);
+		}
+		c.split[c.nmsg - 1] = vf_chance(r, 1, 2) ? 0 : (vf_chance(r, 1, 2) ? 2 : 3);
+		fill_message(r, c.fmt, c.msg[c.nmsg - 1], &c.mlen[c.nmsg - 1], 150, MAXMSG - 50);
+		c.nvariants = 2;
+		vf_count("cases:release-history", 1);
+		run_case(&c, r);
+		return;
+	}
 	if (idx < n_enum()) {
 		/* every length x framing, variants cycle driver / pattern / split */
 		unsigned v = (unsigned) (idx / ((uint64_t) RC_NFMT * (len_max() + 1)));
@@ -460,6 +664,7 @@ void vf_case(uint64_t idx, vf_rng *r)
 		c.fmt = (int) vf_below(r, RC_NFMT);
 		c.driver = (int) vf_below(r, 2);
 		c.nmsg = vf_chance(r, 1, 2) ? 1 : 1 + vf_below(r, MAXMSGS);
+		c.release = 2;
 		for (unsigned i = 0; i < c.nmsg; i++) {
 			size_t max = c.nmsg > 1 ? 300 : MAXMSG - 100;
 			c.split[i] = (int) vf_below(r, 4);
